@@ -1075,6 +1075,7 @@ extern "C" void sim_free (void *p) {
 	// freeing is a write to the whole block: it must be ordered after every other access
 	size_t need = (b.size + 15) & ~(size_t) 15;
 	for (size_t o = 0; o < need; o += 4) hb_access (a + o, true, false, pc);
+	if (g_hooks != NULL && g_hooks->on_free != NULL) g_hooks->on_free (g_hooks->arg, p, b.size);
 	b.freed = true; b.free_tid = curtid (); b.free_pc = pc;
 	// poison with a non-canonical pointer pattern
 	uint64_t *q = (uint64_t *) p;
